@@ -306,6 +306,7 @@ def r_conversion_sites(P, rep, rule):
     def mk2(ctx):
         a = Obj('Node', lazy=True, label='A')
         A['a'] = a
+        ctx.c01_A = a
         return [a, Obj('Token', lazy=True, label='tok'), Sym('k', 'int')]
     try:
         outs = [(ctx, o[1]) for ctx, o in it2.explore('new_inc_dec', mk2, max_paths=400) if o[0] == 'ret']
@@ -330,7 +331,7 @@ def r_conversion_sites(P, rep, rule):
             from .interp import Lin
             opp = Lin.of(k1).add(Lin.of(k2)) == 0 and repr(k1) == 'k'
             ty_ok = getattr(it2.settle(cast.fields['args'][1]) if isinstance(cast.fields['args'][1], View) else cast.fields['args'][1], 'label', '') .startswith('A.ty') or 'A.ty' in repr(cast.fields['args'][1])
-            ok = add1.fields['kind'] == 'new_add' and add1.fields['args'][0] is A['a'] and opp and ty_ok
+            ok = add1.fields['kind'] == 'new_add' and add1.fields['args'][0] is getattr(ctx, 'c01_A', None) and opp and ty_ok
             detail = 'built %s(%s(%s(%s(A, %r)), %r), %r)' % (cast.fields['kind'], add2.fields['kind'], asg.fields['kind'], add1.fields['kind'], k1, k2, cast.fields['args'][1])
         except Exception as e:
             continue
